@@ -404,3 +404,73 @@ func TestLiteral(t *testing.T) {
 		kit.Rec.Case(desc, nontrivial(reflect.ValueOf(want)), "literal/"+typ.String())
 	})
 }
+
+// TestCrossType: the configured value has one scalar kind, the fields another compatible one
+// (int -> float / string / narrower int, float -> string / int, numeric string -> int / float).
+// The prefix-bound twin is the reference: the value / prop twins must agree with it.
+func TestCrossType(t *testing.T) {
+	kit.Rec.Rule(rule)
+	rapid.Check(t, func(t *rapid.T) {
+		var v any
+		var targets []reflect.Type
+		tF64, tF32, tStr, tInt, tI64, tI16, tU := reflect.TypeOf(float64(0)), reflect.TypeOf(float32(0)), reflect.TypeOf(""), reflect.TypeOf(0), reflect.TypeOf(int64(0)), reflect.TypeOf(int16(0)), reflect.TypeOf(uint(0))
+		switch rapid.IntRange(0, 2).Draw(t, "src") {
+		case 0:
+			n := rapid.OneOf(rapid.IntRange(-30000, 30000), rapid.IntRange(0, 1<<40), rapid.SampledFrom([]int{0, 1, 1000000, 123456789, 1 << 53})).Draw(t, "n")
+			v = n
+			targets = []reflect.Type{tF64, tStr, tI64}
+			if n >= 0 {
+				targets = append(targets, tU)
+			}
+			if n >= -32768 && n <= 32767 {
+				targets = append(targets, tI16)
+			}
+		case 1:
+			f := rapid.OneOf(
+				rapid.SampledFrom([]float64{0.5, 1500000.5, 1e6, 2e6, 123456789, 1e21, 0.00001, 1e-7, 3}),
+				rapid.Float64Range(-1e9, 1e9),
+			).Draw(t, "f")
+			v = f
+			targets = []reflect.Type{tF64, tStr}
+			if f == math.Trunc(f) && math.Abs(f) < 1<<53 {
+				targets = append(targets, tInt, tI64)
+			}
+			_ = tF32
+		default:
+			s := rapid.SampledFrom([]string{"42", "7", "1000000", "0", "3.5", "1500000.5", "-12"}).Draw(t, "s")
+			v = s
+			targets = []reflect.Type{tF64}
+			if !strings.Contains(s, ".") {
+				targets = append(targets, tInt, tI64)
+			}
+		}
+		typ := rapid.SampledFrom(targets).Draw(t, "target")
+		doc, _ := yaml.Marshal(map[string]any{"c17": map[string]any{"key": v, "other": 1}})
+		obj := reflect.New(reflect.StructOf([]reflect.StructField{
+			{Name: "P", Type: typ, Tag: `prefix:"c17.key"`},
+			{Name: "V", Type: typ, Tag: `value:"${c17.key}"`},
+			{Name: "Q", Type: typ, Tag: `prop:"c17.key"`},
+			{Name: "W", Type: typ, Tag: `value:"${c17.absent:${c17.key}}"`},
+		}))
+		ref := reflect.New(reflect.StructOf([]reflect.StructField{{Name: "P", Type: typ, Tag: `prefix:"c17.key"`}}))
+		desc := fmt.Sprintf("cross %T %#v -> %s", v, v, typ)
+		// the reference alone first: if even prefix binding refuses the conversion the case is out of scope
+		if out := kit.RunApp(app.SetComponents(ref.Interface()), app.SetConfigLoader(loader.NewRawLoader(doc))); !out.OK() {
+			t.Skip("prefix binding refuses this conversion")
+		}
+		out := kit.RunApp(app.SetComponents(obj.Interface()), app.SetConfigLoader(loader.NewRawLoader(doc)))
+		if out.Panic != nil {
+			t.Fatalf("C17: panic %v\n%s", out.Panic, desc)
+		}
+		if out.Err != nil {
+			t.Fatalf("C17: prefix:\"k\" binds %s (= %#v) but binding the same key through a value placeholder / prop fails: %v", desc, ref.Elem().Field(0).Interface(), out)
+		}
+		p := obj.Elem().Field(0).Interface()
+		for i := 1; i < 4; i++ {
+			if got := obj.Elem().Field(i).Interface(); !reflect.DeepEqual(got, p) {
+				t.Fatalf("C17: %s: prefix:\"k\" binds %#v, %s binds %#v", desc, p, obj.Elem().Type().Field(i).Tag, got)
+			}
+		}
+		kit.Rec.Case(desc, true, "cross/"+fmt.Sprintf("%T->%s", v, typ))
+	})
+}
